@@ -11,6 +11,7 @@ import (
 	"path/filepath"
 	"time"
 
+	"github.com/itchio/wharf/archiver"
 	"github.com/itchio/wharf/pwr"
 
 	"verif/lib/runner"
@@ -20,14 +21,14 @@ import (
 // Scenario is one validation set-up. It is also the replay artefact: Schedule,
 // when present, is the exact choice sequence of one execution.
 type Scenario struct {
-	Files    []string `json:"files"`            // content specs, files named f0,f1,...
-	Dir      bool     `json:"dir"`              // an (expected) directory d/ with a file in it
-	Symlink  bool     `json:"symlink"`          // an (expected) symlink l -> f0
-	Damage   string   `json:"damage"`           // none|first|last|all|nodirs|symlink
-	Consumer string   `json:"consumer"`         // failfast|writer|writer-badpath|printer
-	Cap      int      `json:"cap"`              // wound channel capacity (0 = unscaled 1024)
-	Cancel   bool     `json:"cancel"`           // a canceller goroutine exists
-	Bound    int      `json:"bound"`            // preemption bound (-1 unbounded)
+	Files    []string `json:"files"`    // content specs, files named f0,f1,...
+	Dir      bool     `json:"dir"`      // an (expected) directory d/ with a file in it
+	Symlink  bool     `json:"symlink"`  // an (expected) symlink l -> f0
+	Damage   string   `json:"damage"`   // none|first|last|all|nodirs|symlink
+	Consumer string   `json:"consumer"` // failfast|writer|writer-badpath|printer|healer (variant schedfs)
+	Cap      int      `json:"cap"`      // wound channel capacity (0 = unscaled 1024)
+	Cancel   bool     `json:"cancel"`   // a canceller goroutine exists
+	Bound    int      `json:"bound"`    // preemption bound (-1 unbounded)
 	Schedule []int    `json:"schedule,omitempty"`
 }
 
@@ -47,11 +48,14 @@ func (s Scenario) build() wh.Build {
 
 // prepared is a materialised scenario.
 type prepared struct {
-	sc      Scenario
-	dir     string
-	sig     *pwr.SignatureInfo
-	damaged bool
-	wounds  string
+	zip      string
+	template string
+	want     map[string]wh.Snap
+	sc       Scenario
+	dir      string
+	sig      *pwr.SignatureInfo
+	damaged  bool
+	wounds   string
 }
 
 func flip(path string) {
@@ -114,6 +118,26 @@ func prepare(sc Scenario, scratch string, seed int64) (*prepared, error) {
 	if sc.Consumer == "writer-badpath" {
 		p.wounds = filepath.Join(root, "no-such-dir", "wounds.pww")
 	}
+	if sc.Consumer == "healer" {
+		// archive of the pristine build; the damaged directory becomes a template that is
+		// copied afresh for every execution (healing modifies it)
+		pristine := filepath.Join(root, "pristine")
+		if err := sc.build().Materialize(pristine, seed); err != nil {
+			return nil, err
+		}
+		p.zip = filepath.Join(root, "pristine.zip")
+		f, err := os.Create(p.zip)
+		if err != nil {
+			return nil, err
+		}
+		if _, err := archiver.CompressZip(f, pristine, wh.Quiet()); err != nil {
+			return nil, err
+		}
+		f.Close()
+		p.want, _ = wh.Snapshot(pristine)
+		p.template = dir
+		p.dir = filepath.Join(root, "work")
+	}
 	return p, nil
 }
 
@@ -126,6 +150,8 @@ func (p *prepared) validate(ctx context.Context) error {
 	case "writer", "writer-badpath":
 		vctx.WoundsPath = p.wounds
 	case "printer":
+	case "healer":
+		vctx.HealPath = "archive," + p.zip
 	}
 	return vctx.Validate(ctx, p.dir, p.sig)
 }
@@ -208,13 +234,13 @@ func main() {
 	runner.Main(runner.Config{
 		ID:    "C16",
 		Level: "model_checking",
-		Rule: "stateless model checking of the real ValidatorContext.Validate under a controlled scheduler (instrumented build): for each scenario (build x damage x consumer x wound-channel capacity {1,2,1024} x canceller goroutine) every interleaving of the main, validate-worker, consumer, per-file relay and aggregator goroutines and of the cancellation instant is enumerated by preemption-bounded DFS with happens-before state caching; oracle per execution: Validate returned (no deadlock, no step-budget overrun) and a nil fail-fast verdict only on an undamaged directory. Non-trivial = scenario with damage, or with a canceller.",
+		Rule:  "stateless model checking of the real ValidatorContext.Validate under a controlled scheduler (instrumented build): for each scenario (build x damage x consumer x wound-channel capacity {1,2,1024} x canceller goroutine) every interleaving of the main, validate-worker, consumer, per-file relay and aggregator goroutines and of the cancellation instant is enumerated by preemption-bounded DFS with happens-before state caching; oracle per execution: Validate returned (no deadlock, no step-budget overrun) and a nil fail-fast verdict only on an undamaged directory. Non-trivial = scenario with damage, or with a canceller.",
 		Assumptions: []string{
 			"code between two visible operations (channel ops, select, mutex, context cancellation) is atomic; unsynchronised accesses are out of scope here (race pass of C15)",
 			"wound channel capacity is scaled by overlay (make(chan *Wound, 1024) -> 1 or 2) so that 'more wounds than the channel holds' needs 2-3 wounds; the unscaled capacity is explored as well",
 			"custom consumers cannot be injected through Validate (it overwrites WoundsConsumer); consumers that fail early are the wounds writer with an uncreatable path and the fail-fast guardian",
 		},
-		Variants:       []string{"sched"},
+		Variants:       []string{"sched", "schedfs"},
 		QuickBudget:    100 * time.Second,
 		ThoroughBudget: 20 * time.Minute,
 	}, body)
@@ -273,6 +299,22 @@ func judge(r *runner.Rec, p *prepared, err error, cancelled bool, mode string) {
 
 func verdict(p *prepared, err error, cancelled bool) (string, string) {
 	sc := p.sc
+	if sc.Consumer == "healer" {
+		// with the healer the statement demands termination (judged by the scheduler: no
+		// deadlock) and, when nothing interrupts, success with a healed directory. What a
+		// cancelled healing run returns is not constrained by the statement.
+		if cancelled {
+			return "", ""
+		}
+		if err != nil {
+			return "heal-error:healer:no-cancel", fmt.Sprintf("Validate with healer failed without cancellation: %v", err)
+		}
+		got, _ := wh.Snapshot(p.dir)
+		if d := wh.MissingOrWrong(got, p.want); len(d) > 0 {
+			return "false-healed:healer:no-cancel", fmt.Sprintf("Validate with healer returned nil but the directory is not the signed build: %v", d)
+		}
+		return "", ""
+	}
 	if sc.Consumer == "failfast" && err == nil && p.damaged {
 		c := "no-cancel"
 		if cancelled {
